@@ -48,13 +48,19 @@ def u_time(W, sk):
         T2 = UnevenTimeDim.model_construct(dim=Dimension.model_construct(name="Time", letter="t", items=items2, dtype=None))
     else:
         n = W.rng.choice([3, 4, 5, 7])
-        its, yv = [], 1990
-        for k in range(n):
-            its.append(yv)
-            yv += W.rng.choice([1, 2, 5, 13])
+        if W.rng.random() < 0.4:
+            # sub-annual grid: months as decimal years rounded to two digits (slightly uneven), near year 0
+            n = W.rng.choice([6, 9, 13])
+            its = [round(k / 12.0, 2) for k in range(n)]
+            shift = float(W.rng.choice([2020, 1950, 100]))
+        else:
+            its, yv = [], 1990
+            for k in range(n):
+                its.append(yv)
+                yv += W.rng.choice([1, 2, 5, 13])
+            shift = float(W.rng.choice([-7, 3, 100]))
         y = lambda k: float(its[int(k)])
         T = UnevenTimeDim(dim=Dimension(name="Time", letter="t", items=its))
-        shift = float(W.rng.choice([-7, 3, 100]))
         T2 = UnevenTimeDim(dim=Dimension(name="Time", letter="t", items=[v + shift for v in its]))
         W.inputs["time_items"] = its
     out = W.call(lambda: T.bounds)
